@@ -540,8 +540,13 @@ pub fn oracle_c(n: usize, run: &MpcRun, spec_json: &Value) -> (Vec<Violation>, B
                     let mut idx: Vec<usize> = (0..lprime).collect();
                     idx.shuffle(&mut rng);
                     let bytes: Vec<u8> = idx.iter().flat_map(|x| (*x as u32).to_le_bytes()).collect();
-                    if bytes == *perms[pi] {
+                    // a permutation of fewer than 25 elements can match by chance (5! = 120): only
+                    // permutations with a negligible chance of coincidence (25! > 2^83) count
+                    if lprime >= 25 && bytes == *perms[pi] {
                         predicted_perm += 1;
+                    }
+                    if lprime < 25 {
+                        *stats.entry("bucket_permutations_too_short_to_decide".into()).or_insert(0) += 1;
                     }
                 }
                 pi += 1;
@@ -652,7 +657,7 @@ pub fn oracle_c(n: usize, run: &MpcRun, spec_json: &Value) -> (Vec<Violation>, B
                     let mut idx: Vec<usize> = (0..lprime).collect();
                     idx.shuffle(&mut r);
                     let bytes: Vec<u8> = idx.iter().flat_map(|x| (*x as u32).to_le_bytes()).collect();
-                    if bytes == *perms[pi] {
+                    if lprime >= 25 && bytes == *perms[pi] {
                         v.push(mk(
                             "bucket-assignment-predicted-from-toss-before-data",
                             format!("bucket permutation {pi}: the coin toss mixed into it was opened at operation {last}, before the leaky triples were checked (operation {data_ord}); the outsider's prediction matches"),
@@ -674,7 +679,7 @@ impl Check for C04 {
         "fault_enumeration"
     }
     fn rule(&self) -> String {
-        "three sub-checks. A (fault enumeration): per attack configuration (n in {2,3}) every verification step of the preprocessing is attacked with a deviation for which the protocol promises detection - coin-toss commitment / opening (message and, through a tap, the cheater using the other seed itself), base-OT point and both ciphertexts of a base OT, one ALSZ column flipped in 64 of 128 rows, each KOS check field, aBit check bit / MAC, aShare commitments c0+c1 and cm / claimed bit / MAC / opening, HaAND pair, LaAND e / u / commitment / check value, d-value bit / MAC, Beaver d / e / MACs, echo hashes of the verified broadcast (n=3), own d-value and Beaver openings through taps, same-element field combinations (check bit + MAC, Beaver d + e, all d bits of a bucket), and liars that stay consistent with their own commitments (claimed bit / MAC / non-canonical bit byte of 'fashare ver' with a recomputed cm; a wrong key sum with recomputed c0 / c1) - at first / last / random index, towards one recipient and (n=3, broadcast values) consistently towards all; scripted adversary for message deviations, live + tap for self-consistent lies; an honest party that received the bad value and returns Ok is a violation. B (history check over every run of A and the honest reference runs): no honest party sends its k-th 'RNG ver' / 'fashare ver' / 'fashare di_bi' / 'flaand hash' before it completed the receive of every other party's k-th commitment (operation order numbers). C (predictor vs probe, honest runs): the first KOS check coefficient, the aBit test string and the bucket permutation, probed inside the engine, are compared with what an outsider computes from the coin-toss openings seen on the wire strictly before the data under check was sent; alarm only on an exact match, or when two OT sessions used the same first coefficient. distinct = (configuration, deviation) with an effective fault".into()
+        "three sub-checks. A (fault enumeration): per attack configuration (n in {2,3}) every verification step of the preprocessing is attacked with a deviation for which the protocol promises detection - coin-toss commitment / opening (message and, through a tap, the cheater using the other seed itself), base-OT point and both ciphertexts of a base OT, one ALSZ column flipped in 64 of 128 rows, each KOS check field, aBit check bit / MAC, aShare commitments c0+c1 and cm / claimed bit / MAC / opening, HaAND pair, LaAND e / u / commitment / check value, d-value bit / MAC, Beaver d / e / MACs, echo hashes of the verified broadcast (n=3), own d-value and Beaver openings through taps, same-element field combinations (check bit + MAC, Beaver d + e, all d bits of a bucket), and liars that stay consistent with their own commitments (claimed bit / MAC / non-canonical bit byte of 'fashare ver' with a recomputed cm; a wrong key sum with recomputed c0 / c1) - at first / last / random index, towards one recipient and (n=3, broadcast values) consistently towards all; scripted adversary for message deviations, live + tap for self-consistent lies; an honest party that received the bad value and returns Ok is a violation. B (history check over every run of A and the honest reference runs): no honest party sends its k-th 'RNG ver' / 'fashare ver' / 'fashare di_bi' / 'flaand hash' before it completed the receive of every other party's k-th commitment (operation order numbers). C (predictor vs probe, honest runs): the first KOS check coefficient, the aBit test string and the bucket permutation, probed inside the engine, are compared with what an outsider computes from the coin-toss openings seen on the wire strictly before the data under check was sent; alarm only on an exact match (128-bit values; permutations of at least 25 elements, since a shorter one can coincide by chance), or when two OT sessions used the same first coefficient. distinct = (configuration, deviation) with an effective fault".into()
     }
     fn assumptions(&self) -> Vec<String> {
         vec![
@@ -701,7 +706,7 @@ impl Check for C04 {
         let k = case["k"].as_u64().unwrap();
         let shard = case["shard"].as_u64().unwrap();
         let n = if k % 2 == 0 { 2 } else { 3 };
-        let cfg = gen_attack_cfg(seed, 400 + k, n, (k / 2) % 2 == 0, 1 + (k % 3) as usize);
+        let cfg = gen_attack_cfg(seed, 400 + k, n, (k / 2) % 2 == 0, 5 + (k % 3) as usize);
         let r = reference(&cfg);
         let base_json = serde_json::to_value(&cfg.base).unwrap();
         if !r.ok {
